@@ -21,7 +21,48 @@ def main(argv):
         return framework.run_replay(mod, argv[2])
     tier = argv[1] if len(argv) > 1 else os.environ.get('VERIF_TIER', 'quick')
     seed = int(os.environ.get('VERIF_SEED', '0') or 0)
-    return framework.run_check(mod, tier, seed)
+    return supervised(mod, tier, seed)
+
+
+CHECK_DEADLINE = {'quick': 1800.0, 'thorough': 5 * 3600.0}   # seconds; the slowest checks take ~2 min / ~40 min
+
+
+def supervised(mod, tier, seed):
+    """Run the check in a child process group under a wall-clock deadline.  Code under test that no longer terminates
+    somewhere (a regular expression that backtracks for ever, a loop that does not end) would otherwise make the check
+    hang instead of reporting: past the deadline the whole group is killed and the run is reported as a broken
+    correspondence (VIOLATION … no-failing-input-found, the replay file names the stage)."""
+    import signal, time
+    deadline = float(os.environ.get('FSIC_VERIF_CHECK_DEADLINE') or CHECK_DEADLINE.get(tier, 1800.0))
+    t0 = time.time()
+    sys.stdout.flush()
+    child = os.fork()
+    if child == 0:
+        code = 2
+        try:
+            os.setsid()
+            code = framework.run_check(mod, tier, seed)
+        except BaseException:  # noqa: BLE001
+            import traceback
+            traceback.print_exc()
+        finally:
+            sys.stdout.flush()
+            sys.stderr.flush()
+            os._exit(code if isinstance(code, int) else 2)
+    while True:
+        done, status = os.waitpid(child, os.WNOHANG)
+        if done:
+            code = os.waitstatus_to_exitcode(status)
+            return code if code >= 0 else 2
+        if time.time() - t0 > deadline:
+            break
+        time.sleep(0.25)
+    try:
+        os.killpg(child, signal.SIGKILL)
+    except OSError:
+        pass
+    os.waitpid(child, 0)
+    return framework.report_overrun(mod, tier, seed, deadline, t0)
 
 
 if __name__ == '__main__':
